@@ -407,6 +407,7 @@ const preamble = `(declare-datatypes ((Ptr 0)) (((zz_nilptr) (zz_new (zz_new_id 
 (declare-fun zz_fnnil () Fn)
 (declare-fun zz_dyn (Iface) Int)
 (define-fun-rec zz_isnew ((p Ptr)) Bool (ite ((_ is zz_new) p) true (ite ((_ is zz_fld) p) (zz_isnew (zz_fld_base p)) (ite ((_ is zz_elem) p) (zz_isnew (zz_elem_base p)) false))))
+(define-fun-rec zz_isglob ((p Ptr)) Bool (ite ((_ is zz_glob) p) true (ite ((_ is zz_fld) p) (zz_isglob (zz_fld_base p)) (ite ((_ is zz_elem) p) (zz_isglob (zz_elem_base p)) false))))
 (assert (= (zz_dyn zz_ifnil) 0))
 (declare-fun zz_cfresh (Ptr) Bool)
 (assert (not (zz_cfresh zz_nilptr)))
